@@ -13,6 +13,7 @@ NewReconnectPolicyWithDelays must lie within the bounds.
 """
 import json
 import random
+import re
 
 from vlib import core
 
@@ -24,6 +25,43 @@ def rows(out, tag):
         if line.startswith(pre) and line.endswith(">>"):
             res.append(json.loads(line[len(pre):-2]))
     return res
+
+
+def pool_events(raw):
+    """Hook events of the topo driver -> Pool.tla vocabulary (Reset, Fill, Clear, Delay with the wait actually made)."""
+    out = []
+    open_delay = {}
+
+    def close(key, ts):
+        i = open_delay.pop(key, None)
+        if i is not None and ts and out[i].get("ts"):
+            out[i]["w"] = max(1, (ts - out[i]["ts"]) // 1000)
+
+    for e in raw:
+        ev, ts = e["ev"], e.get("ts", 0)
+        if ev == "Reset":
+            open_delay.clear()
+            out.append({"ev": "Reset"})
+        elif ev == "H.delay":
+            key = "ctrl" if e["who"] == "ctrl" else "pool|%s|%s|%s" % (e["host"], e.get("pool", 0), e["idx"])
+            close(key, ts)
+            out.append({"ev": "Delay", "key": key, "us": int(e["ns"]) // 1000, "w": 0, "ts": ts})
+            open_delay[key] = len(out) - 1
+        elif ev == "H.slotfill":
+            key = "pool|%s|%s|%s" % (e["host"], e.get("pool", 0), e["idx"])
+            close(key, ts)
+            out.append({"ev": "Fill", "key": key})
+        elif ev == "H.slotclear":
+            out.append({"ev": "Clear", "key": "pool|%s|%s|%s" % (e["host"], e.get("pool", 0), e["idx"])})
+        elif ev == "H.outage":
+            if e.get("zero"):
+                close("ctrl", ts)
+                out.append({"ev": "Fill", "key": "ctrl"})
+            else:
+                out.append({"ev": "Clear", "key": "ctrl"})
+    for e in out:
+        e.pop("ts", None)
+    return out
 
 
 def run(ctx):
@@ -63,7 +101,8 @@ def run(ctx):
     open(path, "w").write("\n".join(chosen) + "\n")
     out = ctx.path("topo_result.json")
     base_ms, max_ms, connect_ms = 5, 400, 400
-    ctx.drv(["topo", "-in", path, "-out", out, "-base", str(base_ms), "-max", str(max_ms), "-budget", "8000"], timeout=3000)
+    ptrace = ctx.path("pool_trace.ndjson")
+    ctx.drv(["topo", "-in", path, "-out", out, "-base", str(base_ms), "-max", str(max_ms), "-budget", "8000", "-trace", ptrace], timeout=3000)
     r = json.load(open(out))
     for m in r.get("mismatches") or []:
         st = m["behaviour"][m["step"]]
@@ -80,19 +119,40 @@ def run(ctx):
             ctx.violation("C16:outage-not-cleared-after-recovery", "outage not cleared / control connection not re-established after the nodes returned: %s" % ad, replay=ad)
         if ad.get("before", 1) != 0:
             ctx.violation("C16:outage-reported-with-control-connection", "non-zero outage while a control connection exists: %s" % ad, replay=ad)
-    # delays observed at the hooks: within [min(base,max), max]; the first delay after a successful connect is the attempt-0 delay
-    ms = 1000000
-    floor, mx = min(base_ms, max_ms) * ms, max_ms * ms
-    nd = 0
-    for d in r.get("delays") or []:
-        nd += 1
-        if not (floor <= d["ns"] <= mx):
-            ctx.violation("C16:reconnect-delay-out-of-bounds:%s" % d["who"], "reconnect delay %d ns outside [%d, %d]" % (d["ns"], floor, mx), replay=d)
-        elif d.get("waited_ns", 0) and not (floor - 2 * ms <= d["waited_ns"] <= mx + connect_ms * ms + 1500 * ms):
-            # the wait really made (plus one connection attempt of at most the connect timeout, plus scheduling slack)
-            ctx.violation("C16:reconnect-wait-out-of-bounds:%s" % d["who"], "the proxy waited %d ns before its next reconnect step, bounds [%d, %d] (+ connect timeout)" % (d["waited_ns"], floor, mx), replay=d)
-        elif d["who"] == "pool" and d["seq"] == 0 and not ((base_ms + 1 + 85) * ms <= d["ns"] < (base_ms + 1 + 115) * ms):
-            ctx.violation("C16:reconnect-delay-not-reset-after-success", "first delay after a successful connect is %d ns" % d["ns"], replay=d)
+    # the reconnect events recorded at the hooks, validated against Pool.tla: every delay within [min(base,max), max], continuing
+    # the backoff series of its loop, restarted after a successful connect; the wait actually made within the bounds too
+    pevents = pool_events(core.read_ndjson(ptrace))
+    nd = sum(1 for e in pevents if e["ev"] == "Delay")
+    ntimed = sum(1 for e in pevents if e["ev"] == "Delay" and e["w"])
+    if nd < 10:
+        raise core.Inconclusive("too few reconnect delays observed (%d)" % nd)
+    pcfg = {"base_us": base_ms * 1000, "max_us": max_ms * 1000, "base_log2": (base_ms * 1000000).bit_length() - 1,
+            "connect_us": connect_ms * 1000, "slack_us": 1500000}
+    pv = core.validate_trace(ctx, "TracePool", pevents, pcfg, name="pool")
+    for b in pv["bad"]:
+        at = b.get("at", 0)
+        e = pevents[at - 1] if 0 < at <= len(pevents) else {}
+        who = (e.get("key") or "?").split("|")[0]
+        key = "C16:%s:%s" % (re.sub(r"[^a-z0-9]+", "-", b["what"].lower()).strip("-")[:70], who)
+        ctx.violation(key, "%s: %s" % (b["what"], e), replay={"violation": b, "events": pevents[max(0, at - 15):at + 1], "cfg": pcfg})
+    # binding self-test: the same log with one loop's counter not reset after its successful connect must be flagged
+    mutated, done = [], False
+    last_big = {}
+    for e in pevents:
+        e2 = dict(e)
+        if e["ev"] == "Delay":
+            if not done and e["key"] in last_big and last_big[e["key"]] == "filled":
+                e2["us"] = max_ms * 1000 + 5000
+                done = True
+            last_big[e["key"]] = "delay"
+        elif e["ev"] == "Fill":
+            last_big[e["key"]] = "filled"
+        mutated.append(e2)
+    if done:
+        mv = core.validate_trace(ctx, "TracePool", mutated, pcfg, name="pool-selftest")
+        if not mv["bad"]:
+            raise core.Inconclusive("binding self-test: a corrupted reconnect log was accepted by TracePool")
+        ctx.notes["pool_binding_selftest"] = sorted({b["what"] for b in mv["bad"]})
     # Backoff table
     bres = ctx.tlc_must_pass("Backoff", "Backoff.cfg", workers=2, timeout=600, name="backoff")
     brows = rows(bres.output, "ROW")
@@ -121,7 +181,8 @@ def run(ctx):
         "probes": r["probes"],
         "max_convergence_ms": r["max_convergence_ms"],
         "reconnect_delays_observed": nd,
-        "reconnect_waits_timed": sum(1 for d in r.get("delays") or [] if d.get("waited_ns")),
+        "reconnect_waits_timed": ntimed,
+        "reconnect_events_validated": pv["total"],
         "all_down": ad,
         "backoff_rows": br["rows"],
         "backoff_calls": br["calls"],
